@@ -32,8 +32,8 @@ func init() {
 		ID:    "C19",
 		Level: "exploration",
 		Rule: "seeded Swagger 2.0 descriptions (base path, global and per-operation consumes/produces over 9 lower-case media types, 0-4 security definitions, global/per-operation/cleared security with 1-2 scheme alternatives and anonymous, 0-6 operations over 7 methods) loaded with loads.Analyzed; " +
-			"per description and JSON-defaults mode the registration sets: exact, every single omission, single additions per category (fresh media type, wildcard media type, media type with a parameter, fresh/other-method/path-case/trailing-slash operation (also substituted for the declared one), fresh/case-variant scheme, authenticator for a declared-but-unused definition), case variants of media types and methods, duplicates, random multi-category deltas; " +
-			"oracle = per-category set comparison computed from the generated description; Validate is called twice in a row on every API (same outcome required); every registration set that validates (exact, case variants, duplicates, application/json left to the JSON defaults, ...) is served, after the second Validate, through Context.APIHandler with >= 3 well-formed requests per operation (each consumes/produces type, charset parameter, upper-case media type, Accept forms, scripted 'does not apply' authenticators) using tagged stub consumers/producers/authenticators. " +
+			"per description and JSON-defaults mode the registration sets: exact, every single omission, single additions per category (fresh media type, wildcard media type, media type with a parameter, fresh/other-method/path-case/trailing-slash operation (also substituted for the declared one), fresh/case-variant scheme, authenticator for a declared-but-unused definition), case variants of media types and methods, duplicates, random multi-category deltas, Register* calls made on the same API value AFTER a judged Validate (one superfluous item after a success, the one missing item after a failure, an existing key registered again) followed by another judged Validate, caller-assigned DefaultConsumes/DefaultProduces (a named media type); the root template '/' is declared now and then; " +
+			"oracle = per-category set comparison computed from the generated description; Validate is called twice in a row on every API (same outcome required); every registration set that validates (exact, case variants, duplicates, application/json left to the JSON defaults, ...) is served, after the second Validate, through Context.APIHandler with >= 3 well-formed requests per operation (each consumes/produces type, charset parameter, upper-case media type, Accept forms incl. 'application/json, <declared>;q=0.9' and 'application/json, */*;q=0.8' on operations that produce no JSON, scripted 'does not apply' authenticators) using tagged stub consumers/producers/authenticators; one description in 20 is also validated with one media type in mixed case or with a parameter (outcome classed 'probe:nonlower-description/...', not judged). " +
 			"non-trivial = (description, registration set) with a non-empty delta, distinct by (description hash, delta); and (description, mode, registration kind, operation, request shape) served by a validated API whose description names >= 2 media types",
 		Assumptions: []string{
 			"descriptions name media types in lower case, without parameters or wildcards (the statement's serving clause is restricted to these); case variants are exercised on the registration side, where a media type registered in another letter case counts as that media type and a method in another letter case as that method; paths and scheme names are compared exactly",
@@ -42,6 +42,7 @@ func init() {
 			"the statement fixes neither the order of reported names nor, for the security-definitions category, which of the two lists carries an unused definition: names are compared as sets (duplicates refused), and for that category the union of both lists is compared",
 			"for an operation for which no produces exists at any level (and no JSON default) requests are sent (Accept absent or */*) and the route, the authenticators consulted, the handler reached and the consumer used are judged; only what happens after the handler returned is not (a \"can't find a producer\" failure there is tolerated: no registration could have prevented it; the same failure before the handler ran is a violation). Not judged (counted as skipped): sending a body to an operation for which no consumes exists at any level",
 			"authenticator stubs either succeed with a principal or do not apply; erroring authenticators and authorizers belong to C02",
+			"a media type the caller assigns to API.DefaultConsumes / DefaultProduces (always one the description names, hence registered) is treated like the JSON default: every operation may be sent it and may answer with it",
 		},
 		MinNontrivial: 3000,
 		Run:           run,
@@ -100,6 +101,35 @@ type Reg struct {
 	// ThenToggle: after a first Validate, the JSON defaults of the same API value are switched
 	// (WithoutJSONDefaults / WithJSONDefaults) and Validate is called again
 	ThenToggle bool `json:"then_toggle_json_defaults,omitempty"`
+	// Then: after the (twice) judged Validate these further Register* calls are made on the SAME API
+	// value and Validate is called again; the API that is served is the one after these calls
+	Then *Delta `json:"then_register,omitempty"`
+	// DefaultConsumes / DefaultProduces: the caller assigns the public fields of the API value (a media
+	// type the description names, hence registered) before validating
+	DefaultConsumes string `json:"default_consumes,omitempty"`
+	DefaultProduces string `json:"default_produces,omitempty"`
+}
+
+// Delta is a list of further Register* calls.
+type Delta struct {
+	Consumers []string `json:"consumers,omitempty"`
+	Producers []string `json:"producers,omitempty"`
+	Ops       []OpReg  `json:"operations,omitempty"`
+	Auths     []string `json:"authenticators,omitempty"`
+}
+
+// finalReg is the registration set the API holds after the Then calls.
+func finalReg(g *Reg) *Reg {
+	if g.Then == nil {
+		return g
+	}
+	f := cloneReg(*g, g.Kind)
+	f.Then = nil
+	f.Consumers = append(f.Consumers, g.Then.Consumers...)
+	f.Producers = append(f.Producers, g.Then.Producers...)
+	f.Ops = append(f.Ops, g.Then.Ops...)
+	f.Auths = append(f.Auths, g.Then.Auths...)
+	return &f
 }
 
 // Req is one well-formed request to an operation of a validated API.
@@ -499,6 +529,18 @@ func buildAPI(doc *loads.Document, g *Reg, rec *recorder) *untyped.API {
 	if g.NoJSONDefaults {
 		api = api.WithoutJSONDefaults()
 	}
+	if g.DefaultConsumes != "" {
+		api.DefaultConsumes = g.DefaultConsumes
+	}
+	if g.DefaultProduces != "" {
+		api.DefaultProduces = g.DefaultProduces
+	}
+	register(api, &Delta{Consumers: g.Consumers, Producers: g.Producers, Ops: g.Ops, Auths: g.Auths}, rec)
+	return api
+}
+
+// register makes the Register* calls of one list on an API value (tagged stubs).
+func register(api *untyped.API, g *Delta, rec *recorder) {
 	for _, c := range g.Consumers {
 		tag := strings.ToLower(c)
 		api.RegisterConsumer(c, runtime.ConsumerFunc(func(r io.Reader, target interface{}) error {
@@ -535,7 +577,6 @@ func buildAPI(doc *loads.Document, g *Reg, rec *recorder) *untyped.API {
 			return true, "principal-" + scheme, nil
 		}))
 	}
-	return api
 }
 
 func observe(err error) observation {
@@ -576,6 +617,77 @@ func modeName(g *Reg) string {
 // judgeValidate builds the API for one registration set, validates it and compares with the
 // oracle. It returns the API and whether it validated.
 func judgeValidate(m *mon.M, d *Desc, doc *loads.Document, dhash string, g *Reg, rec *recorder) (*untyped.API, bool) {
+	api, ok := judgeValidate0(m, d, doc, dhash, g, rec)
+	if g.Then == nil || api == nil {
+		return api, ok
+	}
+	return api, revalidateAfterRegister(m, d, g, api, rec, ok)
+}
+
+// revalidateAfterRegister: Register* calls made on an API value that was validated before count: the
+// next Validate judges the registrations the value holds then. Returns whether it validated.
+func revalidateAfterRegister(m *mon.M, d *Desc, g *Reg, api *untyped.API, rec *recorder, firstOK bool) bool {
+	m.Eval(1)
+	cas := &Case{Desc: *d, Reg: *g}
+	step := strings.TrimPrefix(g.Kind, "then-register:")
+	if step == g.Kind {
+		step = "other"
+	}
+	var err, errAgain error
+	pv, st := mon.Catch(func() {
+		register(api, g.Then, rec)
+		err = api.Validate()
+		errAgain = api.Validate()
+	})
+	if pv != nil {
+		m.Violate("revalidation-after-register/panic/"+step, fmt.Sprintf("%v\n%s", pv, st), cas)
+		return false
+	}
+	obs := observe(err)
+	first := "succeeded"
+	if !firstOK {
+		first = "failed"
+	}
+	if again := observe(errAgain); !sameObservation(obs, again) {
+		m.Violate("second-validate-differs/then-register", fmt.Sprintf("after the later registrations Validate -> %s; called again at once -> %s", obs, again), cas)
+	}
+	f := finalReg(g)
+	reg := registered(d, f)
+	named := expect(required(d, false), reg)
+	inForce := expect(required(d, true), reg)
+	m.Class("validate:again-after-register/" + step)
+	if named.cat >= 0 {
+		m.Class("validate:again-after-register/expected-failure")
+	} else {
+		m.Class("validate:again-after-register/expected-success")
+	}
+	if obs.dup {
+		m.Violate("duplicate-name-in-report/"+catNames[obs.cat]+"/then-register", "a name is reported twice: "+obs.String(), cas)
+	}
+	if agrees(obs, named) || agrees(obs, inForce) {
+		return obs.ok
+	}
+	detail := fmt.Sprintf("first Validate %s; then registered on the same API value %s; Validate -> %s; the description requires, for the registrations the API now holds -> %s (or, counting only what is in force for some operation -> %s); registration kind %s, %s\ndescription: %s",
+		first, thenText(g.Then), obs, named, inForce, g.Kind, modeName(g), render(d))
+	switch {
+	case obs.other != "":
+		m.Violate("revalidation-after-register/other-error/"+step, detail, cas)
+	case obs.ok:
+		m.Violate("revalidation-after-register/accepts-mismatch/"+step, detail, cas)
+	case named.cat < 0:
+		m.Violate("revalidation-after-register/rejects-coinciding-registrations/"+step, detail, cas)
+	default:
+		m.Violate("revalidation-after-register/wrong-report/"+step, detail, cas)
+	}
+	return obs.ok
+}
+
+func thenText(t *Delta) string {
+	b, _ := json.Marshal(t)
+	return string(b)
+}
+
+func judgeValidate0(m *mon.M, d *Desc, doc *loads.Document, dhash string, g *Reg, rec *recorder) (*untyped.API, bool) {
 	m.Eval(1)
 	cas := &Case{Desc: *d, Reg: *g}
 	var api *untyped.API
@@ -791,16 +903,32 @@ func concretePath(d *Desc, op *Op) string {
 	return bp + p
 }
 
-func withDefault(l []string, g *Reg) []string {
-	if g.NoJSONDefaults {
+// defaultOf: the media type the API adds to every operation: the one the caller assigned, else
+// application/json under the JSON defaults, else none.
+func defaultOf(g *Reg, produces bool) string {
+	set := g.DefaultConsumes
+	if produces {
+		set = g.DefaultProduces
+	}
+	switch {
+	case set != "":
+		return set
+	case g.NoJSONDefaults:
+		return ""
+	}
+	return "application/json"
+}
+
+func withDefault(l []string, def string) []string {
+	if def == "" {
 		return l
 	}
 	for _, e := range l {
-		if e == "application/json" {
+		if e == def {
 			return l
 		}
 	}
-	return append(append([]string{}, l...), "application/json")
+	return append(append([]string{}, l...), def)
 }
 
 func satisfied(alts []Alt, deny map[string]bool) bool {
@@ -822,6 +950,7 @@ func serveOne(m *mon.M, d *Desc, g *Reg, h http.Handler, rec *recorder, rq *Req,
 	op := &d.Ops[rq.Op]
 	m.Eval(1)
 	cas := &Case{Desc: *d, Reg: *g, Req: rq}
+	g = finalReg(g) // what the API holds when it is served
 	mode := modeName(g)
 	var body io.Reader
 	if rq.ContentType != "" {
@@ -848,7 +977,7 @@ func serveOne(m *mon.M, d *Desc, g *Reg, h http.Handler, rec *recorder, rq *Req,
 	// is no JSON default): no producer could have been registered for it without failing validation.
 	// Only the producer lookup AFTER the handler returned is exempt; the route, the authenticators and
 	// the handler are judged as for every other operation.
-	noProd := len(withDefault(effProduces(d, op), g)) == 0
+	noProd := len(withDefault(effProduces(d, op), defaultOf(g, true))) == 0
 	producerless := false
 	ranRight := len(rec.handled) == 1 && rec.handled[0] == opName(op.Method, op.Path)
 	if pv != nil {
@@ -880,6 +1009,13 @@ func serveOne(m *mon.M, d *Desc, g *Reg, h http.Handler, rec *recorder, rq *Req,
 		} else if res.StatusCode == http.StatusInternalServerError && (strings.Contains(text, "no consumer registered") || strings.Contains(text, "no producer")) {
 			m.Violate("serve/500-no-consumer-or-producer-registered/"+mode, fmt.Sprintf("%s -> 500 %s\ndescription: %s", what, text, render(d)), cas)
 			return
+		}
+	}
+	if op.Path == "/" {
+		if strings.Trim(d.BasePath, "/") != "" {
+			m.Class("serve:root-template/under-base-path")
+		} else {
+			m.Class("serve:root-template/no-base-path")
 		}
 	}
 	alts := effSecurity(d, op)
@@ -956,7 +1092,7 @@ func serveOne(m *mon.M, d *Desc, g *Reg, h http.Handler, rec *recorder, rq *Req,
 			m.Violate("serve/wrong-producer/"+mode, fmt.Sprintf("%s -> Content-Type %q but producers invoked %v, body %q", what, res.Header.Get("Content-Type"), rec.produced, clipS(text)), cas)
 			return
 		}
-		if !setOf(withDefault(effProduces(d, op), g))[ct] {
+		if !setOf(withDefault(effProduces(d, op), defaultOf(g, true)))[ct] {
 			m.Violate("serve/undeclared-response-type/"+mode, fmt.Sprintf("%s -> Content-Type %q which the operation does not produce", what, ct), cas)
 			return
 		}
@@ -1013,14 +1149,14 @@ func upperType(mt string) string {
 // what is judged up to the handler only (no produces at any level).
 func genRequests(r *rand.Rand, d *Desc, g *Reg, idx int) (reqs []Req, skipped, partly string) {
 	op := &d.Ops[idx]
-	prods := withDefault(effProduces(d, op), g)
+	prods := withDefault(effProduces(d, op), defaultOf(g, true))
 	noProd := len(prods) == 0
 	if noProd {
 		// still served (route, authenticators, handler); only Accept forms that name no media type
 		prods = []string{""}
 		partly = "no-produces-at-any-level"
 	}
-	cons := withDefault(effConsumes(d, op), g)
+	cons := withDefault(effConsumes(d, op), defaultOf(g, false))
 	body := hasBodyMethod(op.Method)
 	if body && len(cons) == 0 {
 		body = false
@@ -1064,6 +1200,11 @@ func genRequests(r *rand.Rand, d *Desc, g *Reg, idx int) (reqs []Req, skipped, p
 			return "application/x-unknown;q=0.9, " + mt + ";q=0.8"
 		case 4:
 			return mt[:strings.IndexByte(mt, '/')] + "/*"
+		case 6:
+			// admits a type of the operation but prefers JSON (which the operation may not produce)
+			return "application/json, " + mt + ";q=0.9"
+		case 7:
+			return "application/json, */*;q=0.8"
 		}
 		return mt + ", */*;q=0.1"
 	}
@@ -1077,7 +1218,7 @@ func genRequests(r *rand.Rand, d *Desc, g *Reg, idx int) (reqs []Req, skipped, p
 	for i := 0; i < n; i++ {
 		cs, as := 0, 1
 		if i >= 1 {
-			cs, as = r.Intn(4), r.Intn(6)
+			cs, as = r.Intn(4), r.Intn(8)
 		}
 		if i == 0 {
 			as = 0
@@ -1092,6 +1233,13 @@ func genRequests(r *rand.Rand, d *Desc, g *Reg, idx int) (reqs []Req, skipped, p
 		}
 		rq.Shape = fmt.Sprintf("ct%d-%d/acc%d-%d/deny%d", i%max(1, len(cons)), cs, i%len(prods), as, len(rq.Deny))
 		reqs = append(reqs, rq)
+	}
+	// an API that knows no JSON at all for this operation, asked by a client that prefers JSON but
+	// admits a declared type: well-formed, to be answered with the declared type
+	if !noProd && !setOf(prods)["application/json"] {
+		i, as := r.Intn(len(prods)), 6+r.Intn(2)
+		reqs = append(reqs, Req{Op: idx, ContentType: ctFor(i, 0), Accept: acceptFor(i, as),
+			Shape: fmt.Sprintf("ct%d-0/acc%d-%d/prefers-json", i%max(1, len(cons)), i, as)})
 	}
 	return reqs, skipped, partly
 }
@@ -1145,7 +1293,7 @@ func runDesc(m *mon.M, r *rand.Rand, d *Desc, regs []Reg, serve bool, only *Req)
 			continue
 		}
 		// registrations must coincide under the naming reading for the serving clause to be judged
-		if expect(required(d, false), registered(d, g)).cat >= 0 {
+		if expect(required(d, false), registered(d, finalReg(g))).cat >= 0 {
 			m.Class("serve:validated-under-in-force-reading-only")
 			continue
 		}
@@ -1166,7 +1314,7 @@ func runDesc(m *mon.M, r *rand.Rand, d *Desc, regs []Reg, serve bool, only *Req)
 		}
 		m.Begin(&Case{Desc: *d, Reg: *g})
 		for idx := range d.Ops {
-			reqs, skipped, partly := genRequests(r, d, g, idx)
+			reqs, skipped, partly := genRequests(r, d, finalReg(g), idx)
 			if skipped != "" {
 				m.Note("skipped:"+skipped, 1)
 				m.Class("serve:skipped/" + skipped)
@@ -1284,6 +1432,9 @@ func genDesc(r *rand.Rand) *Desc {
 		}
 		// reuse an existing path with another method now and then
 		p := sb.String()
+		if r.Intn(14) == 0 {
+			p, shape = "/", "/" // the root template
+		}
 		if len(p) > 1 && r.Intn(8) == 0 {
 			p += "/" // a template may end in a slash: names are compared as declared
 		}
@@ -1356,6 +1507,8 @@ func genDesc(r *rand.Rand) *Desc {
 	}
 	return d
 }
+
+var regCatNames = [4]string{"consumer", "producer", "operation", "authenticator"}
 
 var wildcards = []string{"*/*", "text/*", "application/*", "*"}
 
@@ -1607,6 +1760,93 @@ func variants(r *rand.Rand, d *Desc, nmulti int) []Reg {
 		g.Auths = append(g.Auths, base.Auths...)
 		one(g)
 	}
+	// Register* calls between two validations of one API value
+	{
+		// after a success: one superfluous item of one category
+		cat := r.Intn(4)
+		g := cloneReg(base, "then-register:superfluous-"+regCatNames[cat])
+		g.Then = &Delta{}
+		switch cat {
+		case 0:
+			g.Then.Consumers = []string{freshMedia(r, named[catConsumes])}
+		case 1:
+			g.Then.Producers = []string{freshMedia(r, named[catProduces])}
+		case 2:
+			o, _ := freshOp(r, d)
+			g.Then.Ops = []OpReg{o}
+		default:
+			g.Then.Auths = []string{"extra"}
+		}
+		one(g)
+		// after a failure: the one missing item is registered; the API then validates and is served
+		type cand struct {
+			cat int
+			i   int
+		}
+		var cands []cand
+		for i, c := range base.Consumers {
+			if c != "application/json" {
+				cands = append(cands, cand{0, i})
+			}
+		}
+		for i, p := range base.Producers {
+			if p != "application/json" {
+				cands = append(cands, cand{1, i})
+			}
+		}
+		for i := range base.Ops {
+			cands = append(cands, cand{2, i})
+		}
+		for i := range base.Auths {
+			cands = append(cands, cand{3, i})
+		}
+		if len(cands) > 0 {
+			c := cands[r.Intn(len(cands))]
+			g := cloneReg(base, "then-register:missing-"+regCatNames[c.cat])
+			g.Then = &Delta{}
+			switch c.cat {
+			case 0:
+				g.Then.Consumers = []string{base.Consumers[c.i]}
+				g.Consumers = without(base.Consumers, c.i)
+			case 1:
+				g.Then.Producers = []string{base.Producers[c.i]}
+				g.Producers = without(base.Producers, c.i)
+			case 2:
+				g.Then.Ops = []OpReg{base.Ops[c.i]}
+				g.Ops = append(append([]OpReg{}, base.Ops[:c.i]...), base.Ops[c.i+1:]...)
+			default:
+				g.Then.Auths = []string{base.Auths[c.i]}
+				g.Auths = without(base.Auths, c.i)
+			}
+			both(g)
+			// re-registering an existing key (another handler value) changes nothing
+			c = cands[r.Intn(len(cands))]
+			g = cloneReg(base, "then-register:same-key-"+regCatNames[c.cat])
+			g.Then = &Delta{}
+			switch c.cat {
+			case 0:
+				g.Then.Consumers = []string{base.Consumers[c.i]}
+			case 1:
+				g.Then.Producers = []string{mixCase(r, base.Producers[c.i])}
+			case 2:
+				g.Then.Ops = []OpReg{base.Ops[c.i]}
+			default:
+				g.Then.Auths = []string{base.Auths[c.i]}
+			}
+			one(g)
+		}
+	}
+	// the caller assigns the API's default media types (public fields): a type the description names
+	if len(base.Consumers) > 0 || len(base.Producers) > 0 {
+		g := cloneReg(base, "caller-set-defaults")
+		if len(base.Consumers) > 0 && r.Intn(3) > 0 {
+			g.DefaultConsumes = base.Consumers[r.Intn(len(base.Consumers))]
+		}
+		if len(base.Producers) > 0 && (g.DefaultConsumes == "" || r.Intn(3) > 0) {
+			g.DefaultProduces = base.Producers[r.Intn(len(base.Producers))]
+		}
+		both(g)
+	}
 	// random multi-category deltas
 	for k := 0; k < nmulti; k++ {
 		g := cloneReg(base, "multi")
@@ -1646,6 +1886,78 @@ func variants(r *rand.Rand, d *Desc, nmulti int) []Reg {
 	return out
 }
 
+// probeNonLower: a description that names a media type in mixed case or with a parameter (outside the
+// serving clause; whether "coincide" is meant up to letter case there awaits a triage decision).
+// Validate only, for the registration set that registers every named type as it is spelt; the
+// outcome is CLASSED, not judged.
+func probeNonLower(m *mon.M, r *rand.Rand, d0 *Desc) {
+	raw0, _ := json.Marshal(d0)
+	var d Desc
+	if json.Unmarshal(raw0, &d) != nil {
+		return
+	}
+	var lists []*[]string
+	if len(d.Consumes) > 0 {
+		lists = append(lists, &d.Consumes)
+	}
+	if len(d.Produces) > 0 {
+		lists = append(lists, &d.Produces)
+	}
+	for i := range d.Ops {
+		if len(d.Ops[i].Consumes) > 0 {
+			lists = append(lists, &d.Ops[i].Consumes)
+		}
+		if len(d.Ops[i].Produces) > 0 {
+			lists = append(lists, &d.Ops[i].Produces)
+		}
+	}
+	if len(lists) == 0 {
+		return
+	}
+	l := lists[r.Intn(len(lists))]
+	i := r.Intn(len(*l))
+	how := "mixed-case"
+	if r.Intn(2) == 0 {
+		(*l)[i] = mixCase(r, (*l)[i])
+	} else {
+		how = "parameter"
+		(*l)[i] += "; charset=utf-8"
+	}
+	raw := render(&d)
+	var doc *loads.Document
+	var lerr error
+	if pv, _ := mon.Catch(func() { doc, lerr = loads.Analyzed(json.RawMessage(raw), "") }); pv != nil || lerr != nil {
+		m.Class("probe:nonlower-description/" + how + "/not-loadable")
+		return
+	}
+	g := exactReg(&d, false)
+	g.Kind = "probe-nonlower-description"
+	g.NoJSONDefaults = !required(&d, false)[catConsumes]["application/json"] || !required(&d, false)[catProduces]["application/json"]
+	m.Eval(1)
+	var err error
+	pv, st := mon.Catch(func() { err = buildAPI(doc, &g, &recorder{}).Validate() })
+	if pv != nil {
+		m.Violate("validate-panic/probe-nonlower-description", fmt.Sprintf("%v\n%s", pv, st), &Case{Desc: d, Reg: g})
+		return
+	}
+	obs := observe(err)
+	switch {
+	case obs.ok:
+		m.Class("probe:nonlower-description/" + how + "/validates-with-types-registered-as-spelt")
+	case obs.other != "":
+		m.Class("probe:nonlower-description/" + how + "/other-error")
+	default:
+		side := ""
+		if len(obs.missReg) > 0 {
+			side += "+missing"
+		}
+		if len(obs.missSpec) > 0 {
+			side += "+superfluous"
+		}
+		m.Class("probe:nonlower-description/" + how + "/fails-" + catNames[obs.cat] + side)
+	}
+}
+
 func run(m *mon.M) {
 	// loading a description allocates heavily and the live heap is tiny: collect less often
 	debug.SetGCPercent(800)
@@ -1656,6 +1968,9 @@ func run(m *mon.M) {
 		d := genDesc(r)
 		regs := variants(r, d, 4)
 		runDesc(m, r, d, regs, true, nil)
+		if i%20 == 7 {
+			probeNonLower(m, m.Rand("nonlower"), d)
+		}
 	}
 }
 
